@@ -124,6 +124,7 @@ def inline_body(prog, body, keep=None, depth=2, same_file=True, only=None):
     locs = o['locals']
     is_co = bool(o.get('coroutine'))
     inlined = []
+    regions = []     # spliced helper instances: (first block, number of blocks, continuation block, dest place)
     level = {}       # block index -> inline depth of the code in it
     stack_of = {}    # block index -> tuple of callee ids being expanded (recursion cut)
 
@@ -238,6 +239,7 @@ def inline_body(prog, body, keep=None, depth=2, same_file=True, only=None):
                     level[boff + cbi] = level.get(bi, 0) + 1
                     stack_of[boff + cbi] = stack_of.get(bi, ()) + (cid, base)
                 inlined.append(base)
+                regions.append((boff, len(cb.blocks), ready, list(dest) if dest else None))
                 changed = True
                 continue
             # plain call
@@ -278,10 +280,12 @@ def inline_body(prog, body, keep=None, depth=2, same_file=True, only=None):
                 level[boff + cbi] = level.get(bi, 0) + 1
                 stack_of[boff + cbi] = stack_of.get(bi, ()) + (cid,)
             inlined.append(cid)
+            regions.append((boff, len(cb.blocks), T, list(dest) if dest else None))
             changed = True
     o['inlined'] = inlined
     nb = F.Body(prog, o)
     nb.inlined = inlined
+    nb.regions = regions
     return nb
 
 
